@@ -3924,7 +3924,12 @@ func (d *jsonDecDriverBytes) DecodeBytes() (bs []byte, state dBytesAttachState) 
 	d.ensureReadingString()
 	bs1 := d.readUnescapedString()
 
-	slen := base64.StdEncoding.DecodedLen(len(bs1))
+	var slen int
+	for _, v := range d.byteFmters {
+		if n := v.DecodedLen(len(bs1)); n > slen {
+			slen = n
+		}
+	}
 	if slen == 0 {
 		bs = zeroByteSlice
 		state = dBytesDetach
@@ -8134,7 +8139,12 @@ func (d *jsonDecDriverIO) DecodeBytes() (bs []byte, state dBytesAttachState) {
 	d.ensureReadingString()
 	bs1 := d.readUnescapedString()
 
-	slen := base64.StdEncoding.DecodedLen(len(bs1))
+	var slen int
+	for _, v := range d.byteFmters {
+		if n := v.DecodedLen(len(bs1)); n > slen {
+			slen = n
+		}
+	}
 	if slen == 0 {
 		bs = zeroByteSlice
 		state = dBytesDetach
